@@ -74,7 +74,9 @@ CTOR_PARAMS = {'Area': {'area_id': 'N', 'border': 'V: None (default) / [] / 1..3
  'PhantomObstacle': {'obstacle_id': N,
                      'prediction': 'V: None / set-based with 0..3 occupancies'},
  'PlanningProblem': {'planning_problem_id': 'N', 'initial_state': "V; setter in 'mutate'", 'goal_region': "V; setter (goal) in 'mutate'"},
- 'PlanningProblemSet': {'planning_problem_list': 'V: 0..2 problems'},
+ 'PlanningProblemSet': {'planning_problem_list': 'V: 0..5 problems; further problems whose goal region EQUALS that of an earlier one by value '
+                                                 '(a second GoalRegion object: problem/equal-goal-regions) or IS the earlier one (one object held '
+                                                 'by several problems: problem/shared-goal-region)'},
  'Polygon': {'vertices': 'V: 3..7 vertices, cw/ccw, closed/open, repeated vertex, int-typed, asymmetric body polygons'},
  'Rectangle': {'length': 'V: dimension (exact compare)',
                'width': 'V: dimension (exact compare)',
@@ -245,7 +247,7 @@ ENTRY_POINTS = {
     "LaneletNetwork": "per-network mode; loose 'network' (built by add_lanelet / create_from_lanelet_list / create_from_lanelet_network)",
     "Scenario": "whole mode (objects added one by one or in list form)",
     "GoalRegion": "part-by-part mode; loose 'goal' (0..3 states)", "PlanningProblem": "per-network mode; loose 'problem'",
-    "PlanningProblemSet": "whole mode (0..2 problems)",
+    "PlanningProblemSet": "whole mode (0..5 problems, twin / shared goal regions)",
 }
 # module-level entry points of geometry/transform.py: name -> (parameters, how exercised)
 TRANSFORM_FUNCTIONS = {
@@ -264,7 +266,8 @@ STATE_OTHER = "every other state field (acceleration, yaw_rate, slip_angle, stee
 HISTORIES = {
     "1 optional arguments": "defaults omitted ('dflt' shapes, Area(border=None)); TrafficLight.shape; history; own center line; stop line",
     "2 setters / in-place edits": "dims.mutate: construct with other values, then set attribute by attribute (after a first query for "
-                                  "obstacles); update_initial_state(); dims.alias: ONE array / Shape object shared by several owners",
+                                  "obstacles); update_initial_state(); dims.alias: ONE array / Shape object shared by several owners; "
+                                  "goal_share: ONE GoalRegion object held by several problems / equal GoalRegion objects (twins)",
     "3 reuse": "dims.step2: a second motion on the moved world (model and oracle judge every step); inverse motion = two more calls",
     "4 value classes": "dims.ints (int-typed arrays), dims.utm (coordinates ~5e5 / 5e6), int / numpy angle (dims.a_type), float32 "
                        "translation (dims.t_type), empty groups / occupancy sets / goal lists / borders, repeated vertices, asymmetric bodies",
